@@ -35,9 +35,9 @@ QUERIES = ["find", "getNonEntries", "timestamps", "getValuesInIntervals", "getVa
 def floors(tier):
     f = {"evals": {"q." + q: 500 for q in QUERIES}, "classes": {}}
     for c in ("eq:identical", "eq:perturbed-name", "eq:perturbed-label", "eq:perturbed-time", "eq:perturbed-count", "eq:other-type",
-              "eq:foreign", "eq:symmetry-pair", "eq:textgrid-without-tiers", "validate:corrupt-span", "validate:corrupt-order", "validate:corrupt-out-of-span",
+              "eq:foreign", "eq:symmetry-pair", "eq:textgrid-without-tiers", "eq:ne-is-negation", "validate:corrupt-span", "validate:corrupt-order", "validate:corrupt-out-of-span",
               "validate:corrupt-degenerate", "validate:corrupt-overlap", "validate:clean", "validate:error-mode-raises", "samples:on-boundary", "samples:ties",
-              "invert:touching", "invert:empty", "invert:at-bounds", "overlap:all-relations", "find:regex", "find:substr", "fuzzy:tie", "requery-after-mutation"):
+              "invert:touching", "invert:empty", "invert:at-bounds", "invert:bound-exactly-zero", "overlap:all-relations", "find:regex", "find:substr", "fuzzy:tie", "requery-after-mutation"):
         f["classes"]["C15:" + c] = 30
     return f
 
@@ -577,10 +577,10 @@ def workload(tier, rng, shard, nshards, work):
     # objects that carry a history (mutated in place, or produced by earlier operations): the monitors judge every call made on them
     import contextlib as _cl
     import io as _io
-    from workloads.histories import run_histories
+    from workloads.histories import run_histories, RefusedEditFrame
 
     with _cl.redirect_stdout(_io.StringIO()):
-        run_histories(rng, (300 if tier == "quick" else 8000) // nshards)
+        run_histories(rng, (300 if tier == "quick" else 8000) // nshards, observer=RefusedEditFrame(PROP))
 
 
 def perturb_tier(rng, t):
@@ -719,6 +719,13 @@ def _workload(tier, rng, shard, nshards):
                 call(utils.intervalOverlapCheck, Interval(a[0], a[1], "x"), Interval(b[0], b[1], "y"), pct, tt, rng.random() < 0.4)
                 call(utils.intervalOverlapCheck, b, a, 0, 0, rng.random() < 0.4)
         ivs = [(e[0], e[1]) for e in ents] if kind == "I" else []
+        if ivs and k % 11 == 0:
+            # the same list moved to the left of zero, complemented within bounds that END (or start) at exactly 0
+            shiftby = max(x[1] for x in ivs) + rng.choice([0.0, 0.5])
+            neg = [(a - shiftby, b - shiftby) for a, b in ivs]
+            call(utils.invertIntervalList, neg, min(x[0] for x in neg) - rng.choice([0.0, 1.0]), 0 if k % 2 else 0.0)
+            call(utils.invertIntervalList, [(a + shiftby - min(x[0] for x in neg) - shiftby, b - min(x[0] for x in neg)) for a, b in neg][:0] or [(a - min(x[0] for x in neg), b - min(x[0] for x in neg)) for a, b in neg], 0, None)
+            REC.cls("C15:invert:bound-exactly-zero")
         if rng.random() < 0.4:
             rng.shuffle(ivs)
         r = rng.random()
@@ -757,6 +764,18 @@ def _workload(tier, rng, shard, nshards):
             _ = ea == ec
             ed = (Interval if kind == "I" else Point)(*((e[0] + max(2e-6, abs(e[0]) * 2e-6),) + e[1:]))
             _ = (ea == ed, ed == ea, ea == tuple(e), tuple(e) == ea, ea != eb)
+            # "!=" is the negation of "==" for entries (equality tolerates rounding noise; inequality must tolerate the same)
+            ee = (Interval if kind == "I" else Point)(*((e[0] * (1 + 2e-13) if e[0] else 1e-300,) + e[1:]))
+            for x, y in ((ea, eb), (ea, ec), (ea, ed), (ea, ee), (ee, ea), (ea, tuple(e)), (ea, list(e)), (ea, 3)):
+                try:
+                    same, diff = (x == y), (x != y)
+                except Exception:
+                    continue
+                if bool(same) == bool(diff):
+                    viol("q.eq", "__ne__", {"call": "ne", "a": list(x), "b": list(y) if isinstance(y, (tuple, list)) else repr(y)},
+                         "%r == %r is %r but %r != %r is %r" % (x, y, same, x, y, diff), ("ne", kind))
+                else:
+                    REC.held("q.eq", ("ne", kind, bool(same)), "C15:eq:ne-is-negation", None)
             if kind == "I":
                 _ = ea == Point(e[0], e[2])
         # one live object, queried again after in-place edits (a cached view must not survive a mutation)
@@ -850,7 +869,16 @@ def replay(v, work):
     c = v["case"]
     k = c["call"]
     with contextlib.redirect_stdout(io.StringIO()):
-        if k == "find":
+        if k == "ne":
+            mk = lambda v: (Interval(*v) if len(v) == 3 else Point(*v)) if isinstance(v, list) else v
+            x, y = mk(c["a"]), mk(c["b"]) if isinstance(c["b"], list) else 3
+            for y2 in (y, tuple(y) if isinstance(y, (Interval, Point)) else y):
+                same, diff = (x == y2), (x != y2)
+                if bool(same) == bool(diff):
+                    viol("q.eq", "__ne__", c, "%r == %r is %r but != is %r" % (x, y2, same, diff), ("ne",))
+                else:
+                    REC.held("q.eq", ("ne",), None, None)
+        elif k == "find":
             call(snap.build_tier(c["tier"]).find, c["q"], c["sub"], c["re"])
         elif k == "timestamps":
             _ = snap.build_tier(c["tier"]).timestamps
